@@ -5,9 +5,10 @@ import ModVerif.Drv.LexOps
 import ModVerif.Drv.GenPrint
 import ModVerif.Drv.CmpOps
 import ModVerif.Drv.GenParse
+import ModVerif.Drv.GenRule
 open ModVerif.Drv
 
 def modfileH : Handler := fun op args => (LexOps.handleModel op args) <|> (CmpOps.handleModel op args) <|> (GenParse.handleModel op args) <|> (Modfile.handle op args)
-def gmodfileH : Handler := fun op args => (LexOps.handleGen op args) <|> (CmpOps.handleGen op args) <|> (GenPrint.handle op args) <|> (GenModfile.handle op args) <|> (GenParse.handle op args)
+def gmodfileH : Handler := fun op args => (LexOps.handleGen op args) <|> (CmpOps.handleGen op args) <|> (GenPrint.handle op args) <|> (GenModfile.handle op args) <|> (GenParse.handle op args) <|> (GenRule.handle op args)
 
 def main : IO Unit := runMain [("modfile", modfileH), ("gmodfile", gmodfileH)]
